@@ -32,7 +32,9 @@ import (
 // Nestings: int = leaf; `[s,1,2]` = []int{1,2}; `[..]` = []any{..}; `b` = a leaf of a foreign type
 // (string); `n` = nil.
 
-func c12Pred(name string) func(int) bool {
+func c12Pred(name string) func(int) bool { return ft1(c12Pred0(name)) }
+
+func c12Pred0(name string) func(int) bool {
 	switch name {
 	case "p0":
 		return func(x int) bool { return x%2 == 0 }
@@ -50,7 +52,9 @@ func c12Pred(name string) func(int) bool {
 	panic("harness: bad predicate " + name)
 }
 
-func c12Key(name string) func(int) int {
+func c12Key(name string) func(int) int { return ft1(c12Key0(name)) }
+
+func c12Key0(name string) func(int) int {
 	switch name {
 	case "f0":
 		return func(x int) int { return x }
@@ -69,7 +73,9 @@ func c12Key(name string) func(int) int {
 }
 
 // reducers fn(v, acc): r0 acc+v · r1 2*acc+v (order sensitive) · r2 v-acc · r3 acc
-func c12Red(name string) func(v, acc int) int {
+func c12Red(name string) func(v, acc int) int { return ft2(c12Red0(name)) }
+
+func c12Red0(name string) func(v, acc int) int {
 	switch name {
 	case "r0":
 		return func(v, acc int) int { return acc + v }
